@@ -285,6 +285,7 @@ class SpecDenotesBlock(NativeCase):
         n_lin = 0
         blocks = list(MEM_BLOCKS) + [b for b in corpus.BASE_BLOCKS if any(x in b for x in ("MSTORE", "SSTORE", "MLOAD", "SLOAD", "KECCAK"))]
         blocks += generated_mem_blocks(tier)
+        blocks += corpus.random_blocks(40 if tier == 'quick' else 700, seed=23, profile='memory', maxlen=16)
         for b in blocks:
             toks = corpus.tokens(b)
             items = evmexec.parse_plain(toks)
